@@ -508,10 +508,13 @@ def step (c : Ctl) (k : List Frame) (st : St) : Ctl × List Frame × St :=
          | _ => (.raise (mkErr "arity mismatch (continuation)"), k, st))
     | .prim name =>
         (match name, args with
-         | "apply", [g, l] =>
-            (match listToVals 100000 l with
-             | some as => (.call g as, k, st)
-             | none => (.raise (mkErr "apply: not a list"), k, st))
+         | "apply", g :: rest =>
+            (match rest.getLast? with
+             | some l =>
+               (match listToVals 100000 l with
+                | some as => (.call g (rest.dropLast ++ as), k, st)
+                | none => (.raise (mkErr "apply: not a list"), k, st))
+             | none => (.raise (mkErr "arity mismatch in apply"), k, st))
          | "call/cc", [g] | "call-with-current-continuation", [g] => (.call g [.cont k], k, st)
          | _, _ =>
            match applyPrim name args st with
